@@ -70,6 +70,7 @@ struct Ev { int tag; };
 // it on the way up (post-).  The injected handler and the own handler of a state leave marks for each other; a delivery that
 // reaches only one of the two, or in the wrong order, trips an assertion on the spot, leftovers at the end of the step.
 static uint8_t g_inj_mark[VM_NS], g_own_mark[VM_NS];
+static bool    g_inj_entered[VM_NS];      // C03 for the injected handlers: enter / exit alternate, reenter only while entered
 static void inj_down(int id, int ph)  { VASSERT(C05, g_inj_mark[id] == 0, "an injected handler runs once per delivery"); g_inj_mark[id] = (uint8_t)(ph + 1); }
 static void own_down(int id, int ph)  { VASSERT(C05, g_inj_mark[id] == ph + 1, "an injected handler runs before the state's own handler on the way down"); g_inj_mark[id] = 0; }
 static void own_up(int id, int ph)    { VASSERT(C05, g_own_mark[id] == 0, "a state's own handler runs once per delivery"); g_own_mark[id] = (uint8_t)(ph + 1); }
@@ -77,6 +78,9 @@ static void inj_up(int id, int ph)    { VASSERT(C05, g_own_mark[id] == ph + 1, "
 template <int ID>
 struct Inj : FSM::State {
   using Base = FSM::State;
+  void enter(typename Base::PlanControl&)   { VASSERT(C03, !g_inj_entered[ID], "injected handlers: enter and exit strictly alternate, beginning with enter"); g_inj_entered[ID] = true; }
+  void reenter(typename Base::PlanControl&) { VASSERT(C03, g_inj_entered[ID], "injected handlers: reenter is delivered only to an entered state"); }
+  void exit(typename Base::PlanControl&)    { VASSERT(C03, g_inj_entered[ID], "injected handlers: exit is delivered only to an entered state"); g_inj_entered[ID] = false; }
   void preUpdate(typename Base::FullControl&)  { inj_down(ID, 0); }
   void update(typename Base::FullControl&)     { inj_down(ID, 1); }
   void postUpdate(typename Base::FullControl&) { inj_up(ID, 2); }
